@@ -130,6 +130,8 @@ type Exec struct {
 	forced      map[string]int
 	forcedEx    map[string]string
 	curSite     string
+	bigMapOrder int
+	forkSites   map[string]int
 	pendingUniq []uniqFact
 	initPhase   bool
 	stack       []*ssa.Function
@@ -574,6 +576,12 @@ func (e *Exec) branch(c *Term) bool {
 		alt := append(append([]decision{}, e.trace...), decision{kind: 'b', val: 0})
 		e.work = append(e.work, alt)
 		take = true
+		if e.verbose {
+			if e.forkSites == nil {
+				e.forkSites = map[string]int{}
+			}
+			e.forkSites[e.curSite]++
+		}
 	case ft == "sat":
 		take = true
 		e.noteForced(c)
@@ -744,7 +752,20 @@ func (e *Exec) concretize(t *Term) uint64 {
 	e.work = append(e.work, alt)
 	e.trace = append(e.trace, decision{kind: 'p', val: v})
 	e.pos++
+	if e.verbose {
+		if e.forkSites == nil {
+			e.forkSites = map[string]int{}
+		}
+		e.forkSites["pick@"+e.curSite+" in "+e.topFunc()]++
+	}
 	return fix(v)
+}
+
+func (e *Exec) topFunc() string {
+	if n := len(e.stack); n > 0 {
+		return e.stack[n-1].Name()
+	}
+	return "?"
 }
 
 func evalTermModel(e *Exec, t *Term) (uint64, bool) {
@@ -1041,6 +1062,7 @@ func (e *Exec) resetPath() {
 		e.unwind = 100000
 	}
 	e.aliases = nil
+	e.bigMapOrder = -1
 	e.pendingUniq = nil
 	e.stack = e.stack[:0]
 	e.pcVars = nil
@@ -1160,6 +1182,17 @@ func (e *Exec) Explore(h *ssa.Function) {
 				break
 			}
 			fmt.Fprintf(os.Stderr, "  forced %6d  %s   e.g. %s\n", f.v, f.k, e.forcedEx[f.k])
+		}
+		fs = fs[:0]
+		for k, v := range e.forkSites {
+			fs = append(fs, kv{k, v})
+		}
+		sort.Slice(fs, func(i, j int) bool { return fs[i].v > fs[j].v })
+		for i, f := range fs {
+			if i >= 15 {
+				break
+			}
+			fmt.Fprintf(os.Stderr, "  forks  %6d  %s\n", f.v, f.k)
 		}
 	}
 }
